@@ -37,6 +37,10 @@ func scanOrder(c *Ctx, r *Report, rule string, f *ssa.Function, max int64) {
 			}
 		}
 		if len(idx) < 10 {
+			// the destinations may be generated: a slice built by a loop over the ticker range
+			if okk, why, wide := generatedScanTargets(sc.Common().Args[1], max); wide {
+				r.check(okk, rule, fname(f)+" Scan order", c.ipos(sc), fmt.Sprintf("&x[i] appended for i = 1..%d ascending", max-1), why)
+			}
 			continue // not a wide scan
 		}
 		bad := ""
@@ -66,6 +70,8 @@ func propC14(c *Ctx, r *Report) {
 	r.rule("C14/snapshot-rotation-always", 1, "every snapshot block rotates the snapshot tables")
 	rulePassThrough(c, r, "C14/snapshot-rotation-always", c.fn("node.Pegnetd.SnapshotPayouts"), "pegnet.Pegnet.SnapshotCurrent", "the snapshot tables are rotated at every snapshot height, whether or not anybody is paid", "the next snapshot would take its minimum against a snapshot two periods old and pay funds that arrived after the previous snapshot")
 	rulePayoutsPure(c, r, "C14/payouts-pure")
+	r.rule("C14/loopvar-alias", 1, "no address of a per-loop variable is retained across iterations in block processing")
+	ruleLoopVarAlias(c, r, "C14/loopvar-alias", c.RSync)
 	r.rule("C14/payout-loops-complete", 2, "every holder and every asset is visited")
 	ruleLoopCompletes(c, r, "C14/payout-loops-complete", c.fn("node.Pegnetd.SnapshotPayouts"), "pegnet.Pegnet.AddToBalance", "every payout is credited")
 	ruleLoopCompletes(c, r, "C14/payout-loops-complete", c.fn("node.Pegnetd.SnapshotPayouts"), "conversions.Convert", "every holder's assets are valued")
@@ -510,4 +516,96 @@ func findStateOf(root *fnState, fn *ssa.Function, depth int) *fnState {
 		}
 	}
 	return nil
+}
+
+// generatedScanTargets: v is a []interface{} built by appending, in a counted loop, the address of balances[i] for
+// i = 1, 2, ..., max-1 (after a fixed prefix) - in this function or in a helper that returns it. wide is false when v is
+// not recognisably such a list at all.
+func generatedScanTargets(v ssa.Value, max int64) (ok bool, why string, wide bool) {
+	v = unwrap(v)
+	if call, isCall := v.(*ssa.Call); isCall {
+		sc := call.Common().StaticCallee()
+		if sc == nil || !isNewHelper(sc) || sc.Blocks == nil {
+			return false, "", false
+		}
+		rets := returnsIn(blockSet(sc))
+		if len(rets) != 1 || len(rets[0].Results) != 1 {
+			return false, "", false
+		}
+		return generatedScanTargets(rets[0].Results[0], max)
+	}
+	// the final slice: a phi at the loop header (value after the loop) whose in-loop edge is append(phi, &b[i])
+	ph, isPhi := v.(*ssa.Phi)
+	if !isPhi {
+		return false, "", false
+	}
+	f := ph.Parent()
+	var loop *natLoop
+	for _, l := range naturalLoops(f) {
+		if l.header == ph.Block() {
+			loop = l
+		}
+	}
+	if loop == nil {
+		return false, "", false
+	}
+	var app *ssa.Call
+	for i, e := range ph.Edges {
+		if !loop.blocks[ph.Block().Preds[i]] {
+			continue
+		}
+		c2, isC := e.(*ssa.Call)
+		if !isC {
+			return false, "", false
+		}
+		if bi, isB := c2.Call.Value.(*ssa.Builtin); !isB || bi.Name() != "append" || c2.Call.Args[0] != ssa.Value(ph) {
+			return false, "", false
+		}
+		app = c2
+	}
+	if app == nil {
+		return false, "", false
+	}
+	els := varargElems(app.Call.Args[1])
+	if len(els) != 1 {
+		return false, "more than one destination appended per iteration", true
+	}
+	mi, isMI := els[0].(*ssa.MakeInterface)
+	if !isMI {
+		return false, "", false
+	}
+	ia, isIA := mi.X.(*ssa.IndexAddr)
+	if !isIA {
+		return false, "", false
+	}
+	iv, isIP := unwrapConv(ia.Index).(*ssa.Phi)
+	if !isIP || iv.Block() != loop.header {
+		return false, "the appended destination is not indexed by the loop counter", true
+	}
+	init, step := false, false
+	for i, e := range iv.Edges {
+		if loop.blocks[iv.Block().Preds[i]] {
+			if bo, isBO := e.(*ssa.BinOp); isBO && bo.Op == token.ADD && bo.X == ssa.Value(iv) {
+				if k, isK := bo.Y.(*ssa.Const); isK && k.Int64() == 1 {
+					step = true
+				}
+			}
+		} else if k, isK := unwrapConv(e).(*ssa.Const); isK && k.Value != nil && k.Int64() == 1 {
+			init = true
+		}
+	}
+	bound := false
+	for b := range loop.blocks {
+		x, y, lt, ge := ordEdges(b)
+		if x == nil || unwrapConv(x) != ssa.Value(iv) {
+			continue
+		}
+		if k, isK := unwrapConv(y).(*ssa.Const); isK && k.Value != nil && k.Int64() == max && blockOrDom(lt, app.Block()) && !loop.blocks[ge] {
+			bound = true
+		}
+	}
+	if !init || !step || !bound {
+		return false, fmt.Sprintf("the generating loop does not run i = 1; i < %d; i++ (start at 1=%v, step 1=%v, bound=%v): a column would be read into another asset's balance", max, init, step, bound), true
+	}
+	return true, "", true
 }
